@@ -1,6 +1,8 @@
 package main
 
 import (
+	"go/token"
+	"golang.org/x/tools/go/ssa"
 	"fmt"
 	"os"
 	"sort"
@@ -18,7 +20,6 @@ var c08MapLoopExceptions = ExcTable{
 	"linker.(*linkerContext).computeCrossChunkDependencies range imports:map[ast.Ref]bool": "appends into importsFromOtherChunks[chunk], which sortedCrossChunkImports sorts (by export alias, then chunks by index) before any use; exports[ref]=true is a set insert",
 	"linker.(*linkerContext).mangleProps range MangledProps:map[string]ast.Ref": "each property name occurs once per file; merges for different names touch disjoint symbols; the merge target is fixed by the outer loop over ReachableFiles (ordered)",
 	"linker.(*linkerContext).scanImportsAndExports range ImportsToBind:map[ast.Ref]graph.ImportData": "Part.Dependencies is consumed as a set by the tree-shaking closure; MergeSymbols links each import symbol to its export (distinct keys); the only order-sensitive part of MergeContentsWith (name transfer between two pinned symbols) needs two must-not-rename import aliases of one export, which only arises under direct eval where the file is wrapped as CommonJS and imports are not bound (checked by experiment)",
-	"linker.(*linkerContext).scanImportsAndExports range ResolvedExports:map[string]graph.ExportData": "collects aliases then sort.Strings(aliases); maybeForbidArbitraryModuleNamespaceIdentifier only logs a located error",
 	"linker.(*linkerContext).scanImportsAndExports range SymbolUses:map[ast.Ref]js_ast.SymbolUse": "appends to Part.Dependencies, which is consumed as a set by the tree-shaking closure (markPartLiveForTreeShaking visits every dependency; liveness is a closure and does not depend on visiting order)",
 	"pkg/api.(*apiHandler).broadcastBuildResult range local:map[string]string":        "serve mode live-reload event: collected into added/removed/updated which are sorted (sort.Strings) before being sent",
 	"pkg/api.(*apiHandler).broadcastBuildResult range param newHashes:map[string]string": "serve mode live-reload event: collected into added/removed/updated which are sorted (sort.Strings) before being sent",
@@ -40,7 +41,7 @@ func init() {
 		ID: "C08",
 		Explanation: "Decides the absence of the enumerable nondeterminism sources on paths that produce output or diagnostics (necessary conditions of byte-identical builds, not the behaviour): R1 every `range` over a map in non-test code is order-insensitive (commutative body, collect-then-sort, located-diagnostics-only) or a reviewed entry; R2 goroutines deliver results by pre-assigned index or into sorted collections, never by completion order; R3 sort comparators and hash inputs never use unstable source indices; R4 clock/random/environment reads occur only at the reviewed owner sites; R5 no multi-way select on build paths; R6 no location-less diagnostic is logged from concurrently running goroutines. NOT covered: totality of sort comparators, absolute-path independence (paths are run-time values), determinism of plugin code.",
 		Run: func(p *Prog, tier string) []*RuleResult {
-			return []*RuleResult{c08MapOrder(p)}
+			return []*RuleResult{c08MapOrder(p), c08GoroutineOrder(p)}
 		},
 	})
 }
@@ -69,14 +70,294 @@ func c08MapOrder(p *Prog) *RuleResult {
 					fmt.Printf("    %s\n", pr)
 				}
 			}
-			if r.CheckExc(c08MapLoopExceptions, ml.key) {
+			ok, void := guardedExc(p, r, c08MapLoopExceptions, ml.key)
+			if ok {
 				continue
 			}
-			r.Fail(ml.key, pos, "map iteration whose effects depend on iteration order: "+strings.Join(ml.problems, "; "))
+			if void != "" {
+				void = " [reviewed exception void: " + void + "]"
+			}
+			r.Fail(ml.key, pos, "map iteration whose effects depend on iteration order: "+strings.Join(ml.problems, "; ")+void)
 		}
 	}
 	r.Note("loop kinds: %v", kinds)
 	r.Floor(80)
 	r.StaleCheck(c08MapLoopExceptions)
 	return r
+}
+
+// ---------------------------------------------------------------------------------------------
+// R2 goroutine completion order
+
+// goRoots returns the functions started by `go` statements in module code: closures (with the Go
+// instruction) and named functions.
+type goSite struct {
+	in     *ssa.Go
+	caller *ssa.Function
+	callee *ssa.Function
+}
+
+func goSites(p *Prog) []goSite {
+	var out []goSite
+	for _, fn := range p.ModuleFuncs() {
+		eachInstr(fn, func(b *ssa.BasicBlock, in ssa.Instruction) {
+			g, ok := in.(*ssa.Go)
+			if !ok {
+				return
+			}
+			var callee *ssa.Function
+			if c := g.Call.StaticCallee(); c != nil {
+				callee = c
+			} else if mc, ok := g.Call.Value.(*ssa.MakeClosure); ok {
+				callee, _ = mc.Fn.(*ssa.Function)
+			}
+			out = append(out, goSite{g, fn, callee})
+		})
+	}
+	return out
+}
+
+var c08GoAccumExceptions = ExcTable{
+	"graph.CloneLinkerGraph$1 append captured dynamicImportEntryPoints": "collected under a mutex in completion order, then mapped to stable source indices and sorted (sort.Ints(stableEntryPoints)) before the entry points are appended",
+}
+
+var c08GoSendExceptions = ExcTable{
+	"bundler.parseFile send chan chan bundler.parseResult":                       "received by scanAllDependencies, which stores each result by its own source index (s.results[sourceIndex]); source indices themselves are unstable and are never used for ordering (C08/R3)",
+	"bundler.parseFile$1 send chan chan bundler.parseResult":                     "recover path of parseFile: same receiver, result stored by source index",
+	"bundler.parseFile send chan chan config.InjectedFile":                       "each injected file has its own channel, and preprocessInjectedFiles receives from the channels in the user's inject order",
+	"bundler.(*scanner).preprocessInjectedFiles$1 send chan chan bundler.parseResult": "forwards a define-injected file result to the scan loop, which stores by source index",
+	"bundler.ScanBundle$2 send chan chan bundler.parseResult":                    "the runtime file's result; stored at the fixed runtime source index",
+	"linker.(*linkerContext).generateIsolatedHash send chan chan []byte":         "one buffered channel per chunk carrying exactly one value (that chunk's isolated hash); readers block on the specific chunk they need",
+	"pkg/api.(*apiHandler).serveEventStream$1 send chan chan struct{}":           "serve mode: signals that an HTTP event-stream client went away; no build output involved",
+}
+
+// derivedFromParam: is v computed only from parameters of fn (incl. conversions, arithmetic, field reads of params)?
+func derivedFromParam(v ssa.Value, fn *ssa.Function, depth int) bool {
+	if depth > 6 {
+		return false
+	}
+	switch x := v.(type) {
+	case *ssa.Parameter:
+		return x.Parent() == fn
+	case *ssa.Convert:
+		return derivedFromParam(x.X, fn, depth+1)
+	case *ssa.ChangeType:
+		return derivedFromParam(x.X, fn, depth+1)
+	case *ssa.BinOp:
+		_, cy := x.Y.(*ssa.Const)
+		_, cx := x.X.(*ssa.Const)
+		return (derivedFromParam(x.X, fn, depth+1) && (cy || derivedFromParam(x.Y, fn, depth+1))) || (cx && derivedFromParam(x.Y, fn, depth+1))
+	case *ssa.Field:
+		return derivedFromParam(x.X, fn, depth+1)
+	case *ssa.UnOp:
+		if x.Op == token.MUL {
+			if fa, ok := x.X.(*ssa.FieldAddr); ok {
+				return derivedFromParam(fa.X, fn, depth+1)
+			}
+			if al, ok := x.X.(*ssa.Alloc); ok {
+				if sv := uniqueStoreTo(al); sv != nil {
+					return derivedFromParam(sv, fn, depth+1)
+				}
+			}
+		}
+	case *ssa.Call:
+		// method calls on a parameter with no other args (e.g. idx.GetIndex())
+		if len(x.Call.Args) == 1 && !x.Call.IsInvoke() {
+			return derivedFromParam(x.Call.Args[0], fn, depth+1)
+		}
+	}
+	return false
+}
+
+func c08GoroutineOrder(p *Prog) *RuleResult {
+	r := NewRule("C08/R2 goroutine-order", "code running in a goroutine never accumulates into a shared slice (append) or hands results over a channel in completion order, unless it writes a slot selected by its own parameter, the collection is sorted before use, or the site is reviewed")
+	sites := goSites(p)
+	r.Note("go statements: %d", len(sites))
+	seenFn := map[*ssa.Function]bool{}
+	for _, g := range sites {
+		if g.callee == nil {
+			continue
+		}
+		if seenFn[g.callee] {
+			continue
+		}
+		seenFn[g.callee] = true
+		r.Instances++
+		inGoroutine := map[*ssa.Function]bool{}
+		for _, fn := range withClosures(g.callee) {
+			inGoroutine[fn] = true
+		}
+		for _, fn := range withClosures(g.callee) {
+			eachInstr(fn, func(b *ssa.BasicBlock, in ssa.Instruction) {
+				switch x := in.(type) {
+				case *ssa.Send:
+					key := FuncName(fn) + " send chan " + shortType(x.Chan.Type())
+					if !r.CheckExc(c08GoSendExceptions, key) {
+						r.Fail(key, p.Pos(x.Pos()), "goroutine sends on a channel: the receiver sees results in completion order (needs review of the receive side)")
+					}
+				case *ssa.Store:
+					c, ok := x.Val.(*ssa.Call)
+					if !ok {
+						return
+					}
+					bi, ok := c.Call.Value.(*ssa.Builtin)
+					if !ok || bi.Name() != "append" {
+						return
+					}
+					// accumulating append: first argument is a load of the stored-to address
+					ld, ok := c.Call.Args[0].(*ssa.UnOp)
+					if !ok || ld.Op != token.MUL {
+						return
+					}
+					if ld.X != x.Addr && pathString(addrChain(ld.X)) != pathString(addrChain(x.Addr)) {
+						return
+					}
+					steps := addrChain(x.Addr)
+					root := rootOfChain(steps)
+					if al, ok := root.(*ssa.Alloc); ok && inGoroutine[al.Parent()] {
+						return // local to the goroutine
+					}
+					if fv, ok := x.Addr.(*ssa.FreeVar); ok {
+						if cell := varCell(fv); cell != nil && inGoroutine[cell.Parent()] {
+							return // variable of the goroutine's own function captured by a nested closure
+						}
+					}
+					if u, ok := root.(*ssa.UnOp); ok {
+						if cell := varCell(u.X); cell != nil && inGoroutine[cell.Parent()] {
+							if vals, ok := storesToCell(cell); ok {
+								allFresh := len(vals) > 0
+								for _, v := range vals {
+									if !frzFreshValue(v, 0) {
+										allFresh = false
+									}
+								}
+								if allFresh {
+									return
+								}
+							}
+						}
+					}
+					// through the goroutine's own pointer parameter that the go statement binds to &slice[i]
+					if prm, ok := root.(*ssa.Parameter); ok && prm.Parent() == g.callee {
+						for i, fp := range g.callee.Params {
+							if fp == prm && i < len(g.in.Call.Args) {
+								if _, isIdx := g.in.Call.Args[i].(*ssa.IndexAddr); isIdx {
+									r.OK(FuncName(fn)+" append "+pathString(steps), true, "appends through the goroutine's own parameter, bound to &slice[i] at the go statement")
+									return
+								}
+								if definedInLoop(g.in.Call.Args[i]) {
+									r.OK(FuncName(fn)+" append "+pathString(steps), true, "appends through the goroutine's own pointer parameter, bound to a per-iteration value at the go statement")
+									return
+								}
+							}
+						}
+					}
+					switch rv := root.(type) {
+					case *ssa.MakeSlice:
+						if inGoroutine[rv.Parent()] {
+							return
+						}
+					case *ssa.MakeMap:
+						if inGoroutine[rv.Parent()] {
+							return
+						}
+					}
+					// per-goroutine slot?
+					for _, s := range steps {
+						if ia, ok := s.Val.(*ssa.IndexAddr); ok && derivedFromParam(ia.Index, g.callee, 0) {
+							r.OK(FuncName(fn)+" append "+pathString(steps), true, "appends into a slot indexed by the goroutine's own parameter")
+							return
+						}
+						if lk, ok := s.Val.(*ssa.Lookup); ok && derivedFromParam(lk.Index, g.callee, 0) {
+							r.OK(FuncName(fn)+" append "+pathString(steps), true, "appends into a map slot keyed by the goroutine's own parameter")
+							return
+						}
+					}
+					desc := pathString(steps)
+					if fv, ok := x.Addr.(*ssa.FreeVar); ok {
+						desc = "captured " + fv.Name()
+					}
+					key := FuncName(fn) + " append " + desc
+					if ok, void := guardedExc(p, r, c08GoAccumExceptions, key); !ok {
+						r.Fail(key, p.Pos(x.Pos()), "goroutine appends to shared slice "+desc+": element order is goroutine completion order "+void)
+					}
+				}
+			})
+		}
+	}
+	r.Floor(40)
+	r.StaleCheck(c08GoAccumExceptions)
+	r.StaleCheck(c08GoSendExceptions)
+	return r
+}
+
+// definedInLoop: v is computed by an instruction inside a CFG cycle (a per-iteration value).
+func definedInLoop(v ssa.Value) bool {
+	in, ok := v.(ssa.Instruction)
+	if !ok || in.Block() == nil {
+		return false
+	}
+	start := in.Block()
+	seen := map[*ssa.BasicBlock]bool{}
+	work := append([]*ssa.BasicBlock{}, start.Succs...)
+	for len(work) > 0 {
+		b := work[len(work)-1]
+		work = work[:len(work)-1]
+		if b == start {
+			return true
+		}
+		if seen[b] {
+			continue
+		}
+		seen[b] = true
+		work = append(work, b.Succs...)
+	}
+	return false
+}
+
+// Guards: structural facts a reviewed exception relies on. If a guard no longer holds the exception
+// is void and the obligation fails.
+type excGuard struct {
+	fn     string // function (with closures) that must contain ...
+	callee string // ... at least n static calls to this function
+	n      int
+}
+
+var c08Guards = map[string][]excGuard{
+	"graph.CloneLinkerGraph$1 append captured dynamicImportEntryPoints":                      {{"graph.CloneLinkerGraph", "sort.Ints", 1}},
+	"linker.(*linkerContext).computeCrossChunkDependencies range imports:map[ast.Ref]bool":   {{"linker.(*linkerContext).sortedCrossChunkImports", "sort.Sort", 2}},
+	"pkg/api.(*apiHandler).broadcastBuildResult range local:map[string]string":               {{"pkg/api.(*apiHandler).broadcastBuildResult", "sort.Strings", 3}},
+	"pkg/api.(*apiHandler).broadcastBuildResult range param newHashes:map[string]string":     {{"pkg/api.(*apiHandler).broadcastBuildResult", "sort.Strings", 3}},
+	"pkg/cli.parseTargets range validEngines:map[string]pkg/api.EngineName":                  {{"pkg/cli.parseTargets", "sort.Strings", 1}},
+	"renamer.(*MinifyRenamer).AccumulateSymbolUseCounts range param symbolUses:map[ast.Ref]js_ast.SymbolUse": {{"linker.(*linkerContext).renameSymbolsInChunk", "sort.Sort", 2}},
+}
+
+func countCalls(p *Prog, fnName, callee string) int {
+	fn := p.FindFunc(fnName)
+	if fn == nil {
+		return -1
+	}
+	n := 0
+	for _, f := range withClosures(fn) {
+		eachInstr(f, func(b *ssa.BasicBlock, in ssa.Instruction) {
+			if c, ok := in.(ssa.CallInstruction); ok && calleeFullName(c) == callee {
+				n++
+			}
+		})
+	}
+	return n
+}
+
+// guardedExc applies the exception table but voids an entry whose guards fail.
+func guardedExc(p *Prog, r *RuleResult, t ExcTable, key string) (bool, string) {
+	if _, ok := t[key]; !ok {
+		return false, ""
+	}
+	for _, g := range c08Guards[key] {
+		if n := countCalls(p, g.fn, g.callee); n < g.n {
+			return false, fmt.Sprintf("the reviewed reason relies on %s calling %s at least %d time(s), found %d", g.fn, g.callee, g.n, n)
+		}
+	}
+	r.CheckExc(t, key)
+	return true, ""
 }
